@@ -7,10 +7,17 @@
 //	                                                      engine) gives the same result/root as a plain run  -> same
 //	cancel <cfg> <n> <seed> <slots> <step> <k> <N>        the context reports cancellation from its k-th poll on;
 //	                                                      N = polls of the clean run. k < N must give  -> err ; k >= N -> same
-//	engine <cfg> <n> <seed> <slots> <step> <j> <M> <v>    the j-th engine call answers v (invalid|error|valid);
+//	engine <cfg> <n> <seed> <slots> <step> <j> <M> <v>    the j-th engine call answers v (invalid|error|ctxerror|valid; ctxerror = an engine
+//	                                                      error wrapping context.DeadlineExceeded while the caller's context is alive);
 //	                                                      M = engine calls of the clean run. j < M and v != valid -> err ; else same
+//	engine-nv …                                           the same with validateResult=false (no signature / state-root check)
 //	args   <cfg> <n> <seed> <slots> <step>                the engine was shown exactly the block's payload, the versioned
 //	                                                      hashes 0x01‖sha256(commitment)[1:] and the block's parent root -> ok
+//
+//	mergeblk <cfg> <n> <seed> <slots> <step>              (bellatrix+, payload not the default payload) the same block with the
+//	                                                      payload's block_hash zeroed, run without signature/state-root validation:
+//	                                                      execution is still enabled (is_execution_enabled looks at the WHOLE payload),
+//	                                                      so the engine must be consulted with the spec's call sequence -> ok
 //
 // A result `polls-mismatch` / `calls-mismatch` means the clean run was not deterministic (machinery error).
 package faults
@@ -24,6 +31,9 @@ import (
 	"strconv"
 	"strings"
 
+	"github.com/protolambda/zrnt/eth2/beacon/bellatrix"
+	"github.com/protolambda/zrnt/eth2/beacon/capella"
+	"github.com/protolambda/zrnt/eth2/beacon/deneb"
 	"github.com/protolambda/zrnt/eth2/beacon/common"
 	"github.com/protolambda/ztyp/tree"
 
@@ -100,6 +110,44 @@ func transition(c *chain.Chain, st *chain.Step, cancelFrom int, engineAt int, v 
 
 // transitionM: slotsOnly runs only common.ProcessSlots up to the step's slot (the block, if any, is left
 // out), so that the LAST polls of slot/epoch/upgrade processing are not followed by block-processing polls.
+// wrapCtxErr: scripted engine errors are delivered as errors that WRAP context.DeadlineExceeded (an engine-side
+// timeout) while the caller's own context is alive: still an engine failure, must surface as an error.
+var wrapCtxErr = false
+
+// noValidate: run StateTransition with validateResult=false (the mode a block producer uses to compute the
+// state root): no proposer-signature and no state-root check that could turn a swallowed fault into an error.
+var noValidate = false
+
+type ctxErrEngine struct{ *chain.MockEngine }
+
+func rewrap(ok bool, err error) (bool, error) {
+	if err != nil && wrapCtxErr {
+		return false, fmt.Errorf("execution engine request timed out: %w", context.DeadlineExceeded)
+	}
+	return ok, err
+}
+func (e ctxErrEngine) BellatrixNotifyNewPayload(ctx context.Context, p *bellatrix.ExecutionPayload) (bool, error) {
+	return rewrap(e.MockEngine.BellatrixNotifyNewPayload(ctx, p))
+}
+func (e ctxErrEngine) BellatrixIsValidBlockHash(ctx context.Context, p *bellatrix.ExecutionPayload) (bool, error) {
+	return rewrap(e.MockEngine.BellatrixIsValidBlockHash(ctx, p))
+}
+func (e ctxErrEngine) CapellaNotifyNewPayload(ctx context.Context, p *capella.ExecutionPayload) (bool, error) {
+	return rewrap(e.MockEngine.CapellaNotifyNewPayload(ctx, p))
+}
+func (e ctxErrEngine) CapellaIsValidBlockHash(ctx context.Context, p *capella.ExecutionPayload) (bool, error) {
+	return rewrap(e.MockEngine.CapellaIsValidBlockHash(ctx, p))
+}
+func (e ctxErrEngine) DenebNotifyNewPayload(ctx context.Context, p *deneb.ExecutionPayload, r common.Root) (bool, error) {
+	return rewrap(e.MockEngine.DenebNotifyNewPayload(ctx, p, r))
+}
+func (e ctxErrEngine) DenebIsValidVersionedHashes(ctx context.Context, p *deneb.ExecutionPayload, h []common.Hash32) (bool, error) {
+	return rewrap(e.MockEngine.DenebIsValidVersionedHashes(ctx, p, h))
+}
+func (e ctxErrEngine) DenebIsValidBlockHash(ctx context.Context, p *deneb.ExecutionPayload, r common.Root) (bool, error) {
+	return rewrap(e.MockEngine.DenebIsValidBlockHash(ctx, p, r))
+}
+
 func transitionM(c *chain.Chain, st *chain.Step, cancelFrom int, engineAt int, v chain.Verdict, plain bool, slotsOnly bool) (o outcome) {
 	spec := *c.Spec
 	eng := chain.NewMockEngine(&spec)
@@ -112,7 +160,7 @@ func transitionM(c *chain.Chain, st *chain.Step, cancelFrom int, engineAt int, v
 		}
 		return chain.EngineValid
 	}
-	spec.ExecutionEngine = eng
+	spec.ExecutionEngine = ctxErrEngine{eng}
 	state := chain.WrapState(st.Pre)
 	epc, err := chain.FreshEpc(&spec, state)
 	if err != nil {
@@ -127,7 +175,7 @@ func transitionM(c *chain.Chain, st *chain.Step, cancelFrom int, engineAt int, v
 	if slotsOnly || st.Skipped || st.Block == nil {
 		o.err = common.ProcessSlots(ctx, &spec, epc, state, st.Slot)
 	} else {
-		o.err = common.StateTransition(ctx, &spec, epc, state, st.EnvelopeOf(st.Block), true)
+		o.err = common.StateTransition(ctx, &spec, epc, state, st.EnvelopeOf(st.Block), !noValidate)
 	}
 	o.polls = cc.n
 	o.calls = eng.Calls
@@ -204,13 +252,20 @@ func gen(o hreg.Opts, w *bufio.Writer) error {
 				}
 			}
 			for j := 0; j <= len(cl.calls); j++ {
-				for _, v := range []string{"invalid", "error"} {
+				for _, v := range []string{"invalid", "error", "ctxerror"} {
 					fmt.Fprintf(w, "engine %s %d %d %d %s\n", pre, si, j, len(cl.calls), v)
+					fmt.Fprintf(w, "engine-nv %s %d %d %d %s\n", pre, si, j, len(cl.calls), v)
 				}
 			}
 			if len(cl.calls) > 0 {
 				fmt.Fprintf(w, "engine %s %d 0 %d valid\n", pre, si, len(cl.calls))
+			}
+			if st.Block != nil && st.Block.Fork >= chain.Bellatrix {
 				fmt.Fprintf(w, "args %s %d\n", pre, si)
+				if len(cl.calls) > 0 {
+					fmt.Fprintf(w, "mergeblk %s %d\n", pre, si)
+				}
+				o.Stats.Add("execution", map[bool]string{true: "enabled", false: "pre-merge empty payload"}[len(cl.calls) > 0])
 			}
 		}
 	}
@@ -314,7 +369,11 @@ func exec(o hreg.Opts, sc *bufio.Scanner, w *bufio.Writer) error {
 					return "same"
 				}
 				return "ok-with-different-root"
-			case "engine":
+			case "engine", "engine-nv":
+				if f[0] == "engine-nv" {
+					noValidate = true
+					defer func() { noValidate = false }()
+				}
 				if len(f) != 9 {
 					return "bad-op"
 				}
@@ -331,6 +390,10 @@ func exec(o hreg.Opts, sc *bufio.Scanner, w *bufio.Writer) error {
 					v = chain.EngineInvalid
 				case "error":
 					v = chain.EngineError
+				case "ctxerror":
+					v = chain.EngineError
+					wrapCtxErr = true
+					defer func() { wrapCtxErr = false }()
 				default:
 					return "bad-op"
 				}
@@ -346,6 +409,11 @@ func exec(o hreg.Opts, sc *bufio.Scanner, w *bufio.Writer) error {
 					return "same"
 				}
 				return "ok-with-different-root"
+			case "mergeblk":
+				if st.Block == nil || st.Block.Fork < chain.Bellatrix {
+					return "bad-op"
+				}
+				return mergeVariant(c, st)
 			case "args":
 				cl := transition(c, st, -1, -1, chain.EngineValid, false)
 				if st.Block == nil {
@@ -385,13 +453,27 @@ func checkArgs(c *chain.Chain, st *chain.Step, calls []chain.EngineCall) string 
 		return "ok"
 	}
 	var problems []string
+	// is_execution_enabled(state, body) = merge complete (latest header != default) or payload != default payload
+	enabled, err := executionEnabled(c, st)
+	if err != nil {
+		return "wrong-args cannot-determine-execution-enabled"
+	}
+	if enabled && len(calls) == 0 {
+		return "wrong-args execution-enabled-but-engine-never-consulted"
+	}
+	if !enabled && len(calls) != 0 {
+		return "wrong-args engine-consulted-although-execution-disabled"
+	}
+	if !enabled {
+		return "ok"
+	}
 	// the specification's verify_and_notify_new_payload: is_valid_block_hash, (deneb: is_valid_versioned_hashes,) notify_new_payload
 	want := map[chain.Fork][]string{
 		chain.Bellatrix: {"BellatrixIsValidBlockHash", "BellatrixNotifyNewPayload"},
 		chain.Capella:   {"CapellaIsValidBlockHash", "CapellaNotifyNewPayload"},
 		chain.Deneb:     {"DenebIsValidBlockHash", "DenebIsValidVersionedHashes", "DenebNotifyNewPayload"},
 	}[st.Block.Fork]
-	if len(calls) > 0 || st.Block.Fork >= chain.Capella {
+	{
 		var got []string
 		for _, call := range calls {
 			got = append(got, call.Method)
@@ -432,6 +514,72 @@ func checkArgs(c *chain.Chain, st *chain.Step, calls []chain.EngineCall) string 
 	}
 	if len(problems) > 0 {
 		return "wrong-args " + strings.Join(problems, ",")
+	}
+	return "ok"
+}
+
+
+// executionEnabled evaluates the specification's is_execution_enabled on the step's pre-block state and block,
+// independently of the transition code: by hash-tree-roots against the default header / default payload.
+func executionEnabled(c *chain.Chain, st *chain.Step) (bool, error) {
+	hfn := tree.GetHashFn()
+	var payloadRoot, defaultPayload, headerRoot, defaultHeader common.Root
+	switch {
+	case st.Block.Bellatrix != nil:
+		payloadRoot = st.Block.Bellatrix.Message.Body.ExecutionPayload.HashTreeRoot(c.Spec, hfn)
+		defaultPayload = bellatrix.ExecutionPayloadType(c.Spec).DefaultNode().MerkleRoot(hfn)
+		defaultHeader = bellatrix.ExecutionPayloadHeaderType.DefaultNode().MerkleRoot(hfn)
+		s, ok := st.PreBlock.(*bellatrix.BeaconStateView)
+		if !ok {
+			return false, fmt.Errorf("pre-block state is not bellatrix")
+		}
+		h, err := s.LatestExecutionPayloadHeader()
+		if err != nil {
+			return false, err
+		}
+		headerRoot = h.HashTreeRoot(hfn)
+	default:
+		// capella and deneb: the specification runs process_execution_payload unconditionally
+		return true, nil
+	}
+	return headerRoot != defaultHeader || payloadRoot != defaultPayload, nil
+}
+
+// mergeVariant: zero the payload's block_hash and run the block without signature / state-root validation.
+func mergeVariant(c *chain.Chain, st *chain.Step) string {
+	b := st.Block.Clone(c.Spec)
+	switch {
+	case b.Bellatrix != nil:
+		b.Bellatrix.Message.Body.ExecutionPayload.BlockHash = common.Hash32{}
+	case b.Capella != nil:
+		b.Capella.Message.Body.ExecutionPayload.BlockHash = common.Hash32{}
+	case b.Deneb != nil:
+		b.Deneb.Message.Body.ExecutionPayload.BlockHash = common.Hash32{}
+	default:
+		return "bad-op"
+	}
+	spec := *c.Spec
+	eng := chain.NewMockEngine(&spec)
+	spec.ExecutionEngine = eng
+	state := chain.WrapState(st.Pre)
+	epc, err := chain.FreshEpc(&spec, state)
+	if err != nil {
+		return "err-setup"
+	}
+	if err := common.StateTransition(context.Background(), &spec, epc, state, st.EnvelopeOf(b), false); err != nil {
+		return "err " + strings.SplitN(err.Error(), ":", 2)[0]
+	}
+	var got []string
+	for _, call := range eng.Calls {
+		got = append(got, call.Method)
+	}
+	want := map[chain.Fork][]string{
+		chain.Bellatrix: {"BellatrixIsValidBlockHash", "BellatrixNotifyNewPayload"},
+		chain.Capella:   {"CapellaIsValidBlockHash", "CapellaNotifyNewPayload"},
+		chain.Deneb:     {"DenebIsValidBlockHash", "DenebIsValidVersionedHashes", "DenebNotifyNewPayload"},
+	}[b.Fork]
+	if strings.Join(got, ",") != strings.Join(want, ",") {
+		return "engine-not-consulted calls=" + strings.Join(got, "+")
 	}
 	return "ok"
 }
